@@ -299,16 +299,17 @@ def evalScriptOf : List Bytes → Option Bytes
     | _, _ => none
 
 /-- run the temporary script on the session's environment; stops at the first failure.
-    The Boolean records whether an executed OP_CODESEPARATOR moved the script-code start into the temporary script. -/
-def evalRun (cx : Ctx) : Nat → SEE → Bytes → Bool → SEE × Bool × Option StepErr
-  | 0, e, _, cs => (e, cs, none)
-  | n + 1, e, it, cs =>
-    if it.isEmpty then (e, cs, none)
+    `mainPc` is the current position of the debugged script: after an executed OP_CODESEPARATOR the
+    script code that follows it is the rest of the debugged script. -/
+def evalRun (cx : Ctx) (mainPc : Bytes) : Nat → SEE → Bytes → SEE × Option StepErr
+  | 0, e, _ => (e, none)
+  | n + 1, e, it =>
+    if it.isEmpty then (e, none)
     else
       let isSep := e.cond.allTrue && (match getOp it with | some g => g.opcode == Op.OP_CODESEPARATOR | none => false)
       match step cx e it with
-      | .ok (e', it') => evalRun cx n e' it' (cs || isSep)
-      | .error err => (e, cs, some err)
+      | .ok (e', it') => evalRun cx mainPc n (if isSep then { e' with pbegincodehash := mainPc } else e') it'
+      | .error err => (e, some err)
 
 /-- `Instance::eval(argc, argv)`: result = new environment (position untouched) and the error, if any
     (a C++ exception is caught and reported as a failed operation).
@@ -318,9 +319,7 @@ def instEval (cx : Ctx) (e : IEnv) (args : List Bytes) : Option (IEnv × Option 
   else match evalScriptOf args with
     | none => none
     | some s =>
-      let (see', cs, err) := evalRun cx (s.length + 1) e.see s false
-      -- an executed OP_CODESEPARATOR: the script code that follows it is the rest of the debugged script
-      let see'' := if cs then { see' with pbegincodehash := e.pc } else see'
-      some ({ e with see := see'' }, err)
+      let (see', err) := evalRun cx e.pc (s.length + 1) e.see s
+      some ({ e with see := see' }, err)
 
 end Btcdeb.Model
